@@ -1917,3 +1917,69 @@ Proof. vm_compute. reflexivity. Qed.
 Lemma ranges_all_badsize_release :
   ranges_all false badsize_cfg {| x_addr := []; x_addr_base := 0 |} [] badsize_sect 0 0 = Ok [EvItem (0, 1)].
 Proof. vm_compute. reflexivity. Qed.
+
+(* ------------------------------------------------------------------ statements used verbatim by Properties/C08.v *)
+
+Lemma c08_tombstone_threshold :
+  forall dbg sz, valid_asize sz = true ->
+    min_tombstone_raw dbg sz = Ok (2 ^ (8 * sz) - 2) /\ min_tombstone sz = 2 ^ (8 * sz) - 2.
+Proof.
+  intros dbg sz H. split; [exact (min_tombstone_raw_valid dbg sz H)|exact (min_tombstone_valid sz H)].
+Qed.
+
+Lemma c08_nonempty_below_tombstone_next :
+  forall fuel dbg c bare x s r s',
+    rng_next fuel dbg c bare x s = (Ok (Some r), s') ->
+    fst r < snd r /\ exists t, min_tombstone_raw dbg (c_asize c) = Ok t /\ fst r < t.
+Proof.
+  intros fuel dbg c bare x s r s' H. unfold rng_next in H.
+  apply list_next_yield in H as [rg [a [-> Hy]]]. exact Hy.
+Qed.
+
+Lemma c08_no_panic_tables :
+  forall be f sect asize base index,
+    good (get_address be sect asize base index) /\ good (get_offset be f sect base index) /\
+    good (get_str_offset be f sect base index).
+Proof.
+  intros. split; [apply get_address_good|split; [apply get_offset_good|apply get_str_offset_good]].
+Qed.
+
+Lemma c08_no_panic_ranges_unvalidated_size_refuted :
+  exists c x sect, ranges_all true c x [] sect 0 0 = Panic /\ valid_asize (c_asize c) = false.
+Proof.
+  exists badsize_cfg, {| x_addr := []; x_addr_base := 0 |}, badsize_sect.
+  split; [exact ranges_all_badsize_panics|reflexivity].
+Qed.
+
+Lemma c08_fuel_suffices :
+  forall dbg c dwo x s1 s2 offset base,
+    ranges_all dbg c x s1 s2 offset base <> OutOfFuel /\
+    locations_all dbg c dwo x s1 s2 offset base <> OutOfFuel.
+Proof. intros. split; [apply ranges_all_nf|apply locations_all_nf]. Qed.
+
+Lemma c08_iter_terminates :
+  forall dbg c dwo x s1 s2 offset base,
+    (forall l, ranges_all dbg c x s1 s2 offset base = Ok l -> (length l <= Nat.max (length s1) (length s2))%nat) /\
+    (forall l, locations_all dbg c dwo x s1 s2 offset base = Ok l -> (length l <= Nat.max (length s1) (length s2))%nat).
+Proof.
+  intros. split; intros l H; [eapply ranges_all_bound|eapply locations_all_bound]; exact H.
+Qed.
+
+Lemma c08_iter_progress :
+  forall fuel dbg c bare x s r s',
+    rng_next fuel dbg c bare x s = (r, s') ->
+    (length (s_inp s') <= length (s_inp s))%nat /\
+    (r = Ok None -> s_inp s' = []) /\
+    ((exists b, r = Ok (Some b)) \/ (exists e, r = Err e) -> (length (s_inp s') < length (s_inp s))%nat).
+Proof.
+  intros fuel dbg c bare x s r s'. unfold rng_next.
+  apply list_next_progress; [apply rng_parse_good|apply rng_parse_len].
+Qed.
+
+Lemma c08_raw_iter_stops_after_error :
+  forall dbg c bare inp e inp',
+    (rng_raw_next dbg c bare inp = (Err e, inp') -> inp' = [] /\ rng_raw_next dbg c bare inp' = (Ok None, [])) /\
+    (loc_raw_next dbg c bare inp = (Err e, inp') -> inp' = [] /\ loc_raw_next dbg c bare inp' = (Ok None, [])).
+Proof.
+  intros. split; intros H; apply raw_next_stop in H; try discriminate; subst; split; reflexivity.
+Qed.
